@@ -3,6 +3,7 @@
 -/
 import SymfcModel.Model.Inst
 import SymfcModel.Lemmas.LinAlg
+import SymfcModel.Lemmas.SumRule
 namespace Symfc.C03
 open Symfc
 
@@ -34,6 +35,51 @@ theorem batch_size_multiple_of_natom (N nb p : Nat) (hp : 1 ≤ p) :
 
 theorem batch_pows :
     Gen.sumRuleBatchPowO2 = 1 ∧ Gen.sumRuleBatchPowO3 = 2 ∧ Gen.sumRuleBatchPowO4 = 3 := by decide
+
+/-- C03.a: in every batch (begin and length multiples of N) two stored entries lie in the same row of `c_sum_cplmt`
+    iff they have the same Cartesian offset and the same tuple `rest` = (j, k, …): a row collects exactly the terms
+    of ONE sum `Σ_i Φ[i a, j b, …]`. -/
+theorem one_row_per_fixed_indices (N n b e x x' q q' : Nat) (hn : 1 ≤ n) (hb : N ∣ b) (he : N ∣ e - b)
+    (hle : e ≤ N ^ n) (hq : q < e - b) (hq' : q' < e - b) :
+    (x * (e - b) + q) / N = (x' * (e - b) + q') / N ↔
+      x = x' ∧ (sumRuleTuple N n (b + q)).tail = (sumRuleTuple N n (b + q')).tail :=
+  SumRule.sumRuleBatch_same_row_iff hn hb he hle hq hq'
+
+/-- C03.a: the columns of a row are pairwise DISTINCT classes (lattice translations act freely), so the row is the
+    0/1 functional `v ↦ Σ_{i summed} v[class(i, rest)·3ⁿ + x]`: the translational sum over the first atom index. -/
+theorem row_is_the_translational_sum (c : Cell) (hwf : c.wf = true) (n : Nat) (hn : 2 ≤ n)
+    (nzCut : Option (Array Bool)) (cfg : SumRuleCfg) (indep : List Nat)
+    (rest : List Nat) (hlen : rest.length = n - 1) (hlt : ∀ x, x ∈ rest → x < c.N) (x : Nat) :
+    (SumRule.rowCols c.N n (c.atomicDecompr n) nzCut cfg indep rest x).Nodup :=
+  SumRule.rowCols_nodup c hwf n hn nzCut cfg indep rest hlen hlt x
+
+/-- C03.a / C11.b: for EVERY batch size that is a positive multiple of N (all batch sizes the code can compute are),
+    the row for (rest = unflat R, offset x) read off the batched output is the same batch-independent list of
+    columns; no row is split across two batches. -/
+theorem sum_rule_rows_do_not_depend_on_batching (c : Cell) (n : Nat) (nzCut : Option (Array Bool)) (cfg : SumRuleCfg)
+    (B B' : Nat) (hn : 1 ≤ n) (hB : 0 < B) (hd : c.N ∣ B) (hB' : 0 < B') (hd' : c.N ∣ B')
+    (out out' : List (Option (List (Nat × Nat))))
+    (h : sumRuleBatches c n nzCut cfg B = some out) (h' : sumRuleBatches c n nzCut cfg B' = some out')
+    (R x : Nat) (hR : R < c.N ^ (n - 1)) (hx : x < 3 ^ n) :
+    SumRule.rowOf c.N n B out R x = SumRule.rowOf c.N n B' out' R x ∧
+    SumRule.rowOf c.N n B out R x
+      = SumRule.rowCols c.N n (c.atomicDecompr n) nzCut cfg c.indepAtoms (unflat c.N (n - 1) R) x :=
+  ⟨SumRule.rowOf_batch_independent c n nzCut cfg B B' hn hB hd hB' hd' out out' h h' R x hR hx,
+   SumRule.rowOf_eq c n nzCut cfg B hn hB hd out h R x hR hx⟩
+
+/-- the batch sizes the code computes (`N^(n-1)·(N // n_batch)`, `1 ≤ n_batch ≤ N`) are positive multiples of N -/
+theorem code_batch_sizes_qualify (N nb n : Nat) (hn : 2 ≤ n) (h1 : 1 ≤ nb) (h2 : nb ≤ N) :
+    0 < N ^ (n - 1) * (N / nb) ∧ N ∣ N ^ (n - 1) * (N / nb) :=
+  SumRule.code_batch_size_ok hn h1 h2
+
+/-- C03 fast vs reference (no cutoff): the reference builds the row of EVERY (rest, x); the fast variant builds it
+    only when the first atom of `rest` is independent (the other rows follow by translation invariance). -/
+theorem fast_rows_are_the_reference_rows_with_independent_second_atom (N n : Nat) (ad : Array Nat)
+    (cfgF cfgS : SumRuleCfg) (hF : cfgF.indepMask = true) (hS : cfgS.indepMask = false)
+    (indep rest : List Nat) (x : Nat) :
+    SumRule.rowCols N n ad none cfgF indep rest x =
+      (if indep.contains (rest.getD 0 0) then SumRule.rowCols N n ad none cfgS indep rest x else []) := by
+  rw [SumRule.rowCols_fast N n ad cfgF hF indep rest x, SumRule.rowCols_stable N n ad cfgS hS indep rest x]
 
 section L4
 open Matrix
